@@ -28,7 +28,7 @@ def errnoAfter (e0 : Int) : Errno → Int
   | _ => e0
 
 /-- decides the conditions of an if-tree from the outside in, by linear arithmetic over the hypotheses -/
-macro "resolve_ifs" : tactic => `(tactic| repeat (first | rw [if_pos (by omega)] | rw [if_neg (by omega)]))
+macro "resolve_ifs" : tactic => `(tactic| repeat (first | rw [if_pos (by first | trivial | omega)] | rw [if_neg (by first | exact id | omega)]))
 
 theorem int_max_val : INT_MAX = 2147483647 := by decide
 
